@@ -24,10 +24,14 @@ def main(tier):
               'math.sqrt / numpy norm as y >= 0 with y*y == x', 'cos(0) = 1, sin(0) = 0 (untilted permeability angle) in the horizontal-connection program', 'z3 (QF_NRA)')
     chk.assume('requires of every contract: layers stacked (top of each = bottom of the one above), bottom < centre < top, column area > 0, the two nodes of a connection distinct',
                'record model with 3 underground layers: layer 1 (top), an interior layer and the bottom layer cover the code\'s case distinctions',
-               'names/order of blocks and connections against block_name_list / block_connection_name_list, irregular polygons, tilted geometries and permeability angles: bounded')
+               'whole-geometry obligations: real mulgrid.rectangular() + t2grid.fromgeo() run by the executor for 7 (nx, ny, nz, atmosphere type, convention, number of symbolic column surfaces) shapes with '
+               'symbolic spacings, elevation origin, surfaces anywhere above the model bottom, atmosphere volume and connection distance; horizontal origin concrete',
+               'irregular polygons, other sizes, tilted geometries, permeability angles, block maps: bounded')
     chk.explanation = ('clause -> evidence: block top / volume / centre formulas incl. truncated and above-grid surface blocks: PROVED (all surface positions, 3 layer positions x 3 atmosphere types); '
                        'column volumes telescope to area x depth: PROVED; horizontal area = edge length x lower height, distances = perpendicular distances: PROVED; '
                        'vertical connections: column area, cosine -1, lower block first, distances add to centre separation / surface distance + atmosphere connection: PROVED on the real '
                        'add_vertical_layer_connections; horizontal cosine = -dz/|d| (0 iff equal elevation): PROVED; untilted tilt vector (0,0,-1), unit length when tilted: PROVED; '
-                       'shoelace area n=3..6: PROVED. Whole-grid ordering and naming against the geometry\'s lists on real meshes: BOUNDED.')
+                       'shoelace area n=3..6: PROVED. Whole grid from a real rectangular geometry (constructor and fromgeo run by the executor): blocks and connections are the announced ones in order, every block volume / centre, '
+                       'total rock volume = sum of area x depth to surface, every horizontal / vertical / atmosphere connection per the statement: PROVED for the 7 shapes listed under assume, all spacings and surfaces. '
+                       'Irregular and refined meshes, block maps, other sizes: BOUNDED.')
     return chk.finish()
